@@ -1109,7 +1109,7 @@ def c16(tier):
 
     # record counts at and around the powers of two a writer could plausibly chunk its work by (and the 10 000 of
     # the progress messages): degenerate records only, three shapes in rotation
-    counts = [1023, 1024, 1025, 4095, 4096, 4097, 8192] + ([2048, 10000, 16384, 65535, 65536, 65537] if tier == "thorough" else [])
+    counts = [1023, 1024, 1025, 4095, 4096, 4097, 8192, 99, 100, 101, 999, 1000, 1001, 10000] + ([2048, 9999, 10001, 16384, 65535, 65536, 65537, 100000] if tier == "thorough" else [])
     for variant in C16_VARIANTS:
         names = sorted(shapes_for(variant[1], variant[2]))
         degenerate = [n for n in names if n != "ordinary"][:6]
